@@ -3,7 +3,8 @@ import Tickit.Gen.XTermFacts
 import Tickit.Driver.Common
 /-
   Engine `xterm` (C09).
-    new L C slrm colon rgb | goto l c | move d r | print <hex> | printn <hex> n | erasech n moveend | clear
+    new L C slrm colon rgb [vis blink] (slrm / vis / blink = DECRPM reply values 0..4 for modes 69 / 25 / 12)
+    resize L C | goto l c | move d r | print <hex> | printn <hex> n | erasech n moveend | clear
     scroll top left lines cols downward rightward | setpen [bg=N] [rv=B] | chpen [bg=N] [rv=B]
   Model observation: `<hex bytes> ret=<r>` (exactly what harness/xterm.c prints).
   SPEC verdict: the VT reference interpreter (Model/VT.lean) is run on the *implementation's* bytes from the screen
@@ -19,9 +20,21 @@ structure St where
   drv : Drv
   vt : VTState
   live : Bool
+  /-- the reference terminal does not change DECLRMM on `CSI ? 69 h / l` (mode not recognised, or permanent) -/
+  locked : Bool
 
 instance : Inhabited St :=
-  ⟨{ drv := default, vt := VTState.init 0 0 (fun _ _ => default), live := false }⟩
+  ⟨{ drv := default, vt := VTState.init 0 0 (fun _ _ => default), live := false, locked := false }⟩
+
+/-- Interpret the implementation's bytes on the reference terminal of this history: as `VT.run`, except that a
+    terminal whose mode 69 is not recognised or permanent keeps its DECLRMM state (and, if that is "set", its
+    left/right margins) whatever `CSI ? 69 h / l` asks. -/
+def runOn (st : St) (bytes : List UInt8) : VTState :=
+  if st.locked then
+    bytes.foldl (fun vt b =>
+      let vt' := VT.step vt b
+      if vt'.declrmm = vt.declrmm then vt' else { vt' with declrmm := vt.declrmm, left := vt.left, right := vt.right }) st.vt
+  else run bytes st.vt
 
 /-- Pre-existing screen content: a distinct glyph in every cell, so that any misplaced cell is visible. -/
 def initialGrid (cols : Int) : Int → Int → Cell := fun l c => ⟨0x100000 + (l * cols + c).toNat, -1, false⟩
@@ -203,7 +216,7 @@ def doRequest (st : St) (req : Request) (impl : String) : St × String × String
   match parseObs impl with
   | none => (st, mobs, "")     -- CRASH / malformed: the comparison reports it
   | some (ibytes, iret) =>
-    let vt' := run ibytes st.vt
+    let vt' := runOn st ibytes
     let unk := unknownSeqs ibytes st.vt
     let (verdict, inContract) := specCheck req st.vt vt' iret ibytes
     let verdict := if verdict = "" ∧ inContract ∧ unk > 0 then s!"{unk} control sequence(s) unknown to the reference terminal" else verdict
@@ -216,7 +229,7 @@ def doPen (st : St) (isSet : Bool) (pen : PenReq) (impl : String) : St × String
   match parseObs impl with
   | none => (st1, mobs, "")
   | some (ibytes, _) =>
-    let vt' := run ibytes st.vt
+    let vt' := runOn st ibytes
     let unk := unknownSeqs ibytes st.vt
     let verdict := firstNonEmpty [
       if vt'.ps ≠ .ground then "output ends inside an escape sequence" else "",
@@ -227,29 +240,57 @@ def doPen (st : St) (isSet : Bool) (pen : PenReq) (impl : String) : St × String
       cursorCheck vt' st.vt.row st.vt.col st.vt.pendingWrap]
     ({ st1 with vt := vt'.compact }, mobs, verdict)
 
+/-- `resize L C`: the emulator's window changes first (`VTState.resize`), then the library is told; the driver has
+    nothing to send, the screen must stay as the resize left it, and `tickit_term_get_size` must report the new size
+    (which every later `scrollrect` decision has to be made with). -/
+def doResize (st : St) (l c : Int) (impl : String) : St × String × String :=
+  let st1 := { st with drv := { st.drv with lines := l, cols := c } }
+  let mobs := s!"- size={l}x{c}"
+  let vtr := st.vt.resize l c (freshGrid c)
+  match toks impl with
+  | [h, sz] =>
+    match hexBytes? h with
+    | none => ({ st1 with vt := vtr.compact }, mobs, "")
+    | some ibytes =>
+      let vt' := runOn { st with vt := vtr } ibytes
+      let unk := unknownSeqs ibytes vtr
+      let verdict := if l < 1 ∨ c < 1 then "" else firstNonEmpty [
+        if sz = s!"size={l}x{c}" then "" else s!"terminal size reported as {sz} after a resize to {l}x{c}",
+        commonCheck vtr vt',
+        if unk > 0 then s!"{unk} control sequence(s) unknown to the reference terminal" else "",
+        gridCheck vt' vtr.grid,
+        cursorCheck vt' vtr.row vtr.col vtr.pendingWrap]
+      ({ st1 with vt := vt'.compact }, mobs, verdict)
+  | _ => ({ st1 with vt := vtr.compact }, mobs, "")
+
 def step (st : St) (ts : List String) (impl : String) : St × String × String :=
   match ts with
-  | ["new", l, c, slrm, colon, rgb] =>
-    match ints? [l, c, slrm, colon, rgb] with
-    | some [l, c, slrm, colon, rgb] =>
-      let caps : Caps := ⟨slrm ≠ 0, colon ≠ 0, rgb ≠ 0⟩
+  | "new" :: l :: c :: slrm :: colon :: rgb :: more =>
+    match ints? [l, c, slrm, colon, rgb], (if more = [] then some [1, 2] else ints? more) with
+    | some [l, c, slrm, colon, rgb], some [vis, blink] =>
+      if slrm < 0 ∨ slrm > 4 ∨ vis < 0 ∨ vis > 4 ∨ blink < 0 ∨ blink > 4 then (st, "bad-op", "") else
+      let caps : Caps := ⟨slrmCap Gen.XTermFacts.slrmAccept slrm.toNat, colon ≠ 0, rgb ≠ 0⟩
       let drv : Drv := ⟨caps, l, c, PenCache.empty⟩
-      let mobs := s!"{bytesHex startBytes} caps={b01 caps.slrm} {b01 caps.colon} {b01 caps.rgb8} size={l} {c}"
+      let mobs := s!"{bytesHex startBytes} caps={b01 caps.slrm} {b01 caps.colon} {b01 caps.rgb8} size={l} {c} modes={b01 (cursorvisOfReply vis.toNat)} {b01 (cursorblinkOfReply blink.toNat)}"
       let vt0 := VTState.init l c (initialGrid c)
       -- the start-up bytes as the implementation sent them
-      let ibytes := match toks impl with | h :: _ => (hexBytes? h).getD [] | [] => []
+      let itoks := toks impl
+      let ibytes := match itoks with | h :: _ => (hexBytes? h).getD [] | [] => []
       let vt1 := run ibytes vt0
       let unk := unknownSeqs ibytes vt0
-      -- a terminal that answered "not recognised" to DECRQM 69 has no DECLRMM
-      let vt2 := if caps.slrm then vt1 else { vt1 with declrmm := false }
+      -- the terminal's DECLRMM is what its DECRPM reply says it is (after the start-up `CSI ? 69 h`)
+      let vt2 := { vt1 with declrmm := declrmmOfReply slrm.toNat }
+      -- the capability as the implementation reports it
+      let implSlrm : Bool := match itoks with | _ :: t :: _ => t == "caps=1" | _ => false
       let verdict := firstNonEmpty [
         if vt1.ps ≠ .ground then "start-up output ends inside an escape sequence" else "",
         if unk > 0 then s!"{unk} start-up control sequence(s) unknown to the reference terminal" else "",
         if ¬ Spec.marginsReset vt1 then "margins set by start-up" else "",
         if vt1.bg ≠ -1 ∨ vt1.rv then "start-up leaves rendering attributes set" else "",
-        if caps.slrm ∧ ¬ vt1.declrmm then "DECLRMM not enabled by start-up" else ""]
-      ({ drv := drv, vt := vt2.compact, live := true }, mobs, verdict)
-    | _ => (st, "bad-op", "")
+        if slrm = 1 ∧ ¬ vt1.declrmm then "DECLRMM not enabled by start-up" else "",
+        if implSlrm ∧ vt2.declrmm = false then s!"DECSLRM capability claimed but DECLRMM is reset (DECRPM reply ?69;{slrm}$y)" else ""]
+      ({ drv := drv, vt := vt2.compact, live := true, locked := modeLockedOfReply slrm.toNat }, mobs, verdict)
+    | _, _ => (st, "bad-op", "")
   | op :: rest =>
     if ¬ st.live then (st, "bad-op", "") else
     match op, rest with
@@ -274,6 +315,10 @@ def step (st : St) (ts : List String) (impl : String) : St × String × String :
       | some [n, me] => doRequest st (.erasech n (MoveEnd.ofInt me)) impl
       | _ => (st, "bad-op", "")
     | "clear", [] => doRequest st .clear impl
+    | "resize", [l, c] =>
+      match ints? [l, c] with
+      | some [l, c] => doResize st l c impl
+      | _ => (st, "bad-op", "")
     | "scroll", [t, l, n, c, d, r] =>
       match ints? [t, l, n, c, d, r] with
       | some [t, l, n, c, d, r] => doRequest st (.scroll ⟨t, l, n, c⟩ d r) impl
